@@ -671,7 +671,7 @@ def sweep_suite(ctx, res, add):
             tier = "quick"
         cs = m.generate(Fake)
         cs = cs[::max(1, len(cs) // 250)]
-        return [("c13_drv.cpp", "sweep_c13", [], [[c.header()] + list(c.ops) for c in cs])]
+        return [("c13_drv.cpp", "sweep_c13", [], [[c.header()] + list(m.ops_for(c, Fake.rng)) for c in cs])]
 
     def c10():
         m = importlib.import_module("props.c10")
@@ -680,7 +680,7 @@ def sweep_suite(ctx, res, add):
 
     def c20():
         m = importlib.import_module("props.c20")
-        g = m.generate(random.Random(ctx.seed + 15), "quick")
+        g = m.generate(random.Random(ctx.seed + 15), "quick")[0]
         return [("c20_drv.cpp", "sweep_c20", [], [[h] + list(ops[:400]) for (h, ops) in g.groups])]
 
     for name, fn in (("C01", c01), ("C16", c16), ("C13", c13), ("C10", c10), ("C20", c20)):
@@ -701,11 +701,12 @@ def sweep_suite(ctx, res, add):
     for (name, src, tag, fl, scripts), b in zip(plan, built):
         if b is None:
             continue
-        got = run_scripts(b, scripts, chunk=25)
+        # the other harnesses were not written to free their own objects at exit: leak detection stays with this property's harnesses
+        got = run_scripts(b, scripts, chunk=25, env={"ASAN_OPTIONS": ENV["ASAN_OPTIONS"].replace("detect_leaks=1", "detect_leaks=0")})
         n = 0
         for sc, (ans, death) in zip(scripts, got):
             n += len(ans)
-            if death and (death["san"] or death["sig"] == "CRASH"):
+            if death and death["sig"] != "at-exit" and (death["san"] or death["sig"] == "CRASH"):
                 i = min(death["line"], len(sc) - 1)
                 add("sweep:%s:sanitizer:%s" % (name, death["san"] or "crash"), dict(part="sweep", harness=src, tag=tag, flags=fl, script=sc[:i + 1]),
                     "harness of %s rebuilt with ASan+UBSan: '%s' ended the process" % (name, sc[i][:120]), "no report", death["err"][:700])
